@@ -10,7 +10,7 @@ EXTENDS SListOps, Json, IOUtils
 CONSTANT Level
 Recs == ndJsonDeserialize(IOEnv.TRACE)
 
-ToSt(j) == [hn |-> j.hn, t |-> j.t, count |-> j.count, nx |-> j.nx]
+ToSt(j) == [hn |-> j.hn, t |-> j.t, count |-> j.count, nx |-> j.nx, offk |-> j.offk]
 StepOK(rec) ==
     IF rec.out # "ok" \/ rec.pre.bad \/ rec.post.bad THEN FALSE ELSE
     LET r == Apply(ToSt(rec.pre), rec) IN
